@@ -351,40 +351,40 @@ package hotline
 //@   record_writer
 
 //@ func performHandshake(rw io.ReadWriter) (err error)
-//@   before call io.CopyN assert writer_kind(arg0) == 2 || reader_kind(arg1) == 2
-//@   before call io.Copy assert writer_kind(arg0) == 2 || reader_kind(arg1) == 2
+//@   before any call io.CopyN assert writer_kind(arg0) == 2 || reader_kind(arg1) == 2
+//@   before any call io.Copy assert writer_kind(arg0) == 2 || reader_kind(arg1) == 2
 //@   before call (io.ReadWriter).Read assert false
 //@   before call (io.Reader).Read assert false
 //@   before call io.ReadFull assert len(arg1) == 12
 
 //@ func (s *Server) handleFileTransfer(ctx context.Context, rwc io.ReadWriter) (err error)
-//@   before call io.CopyN assert writer_kind(arg0) == 2 || reader_kind(arg1) == 2
-//@   before call io.Copy assert writer_kind(arg0) != 1 || reader_kind(arg1) == 2
+//@   before any call io.CopyN assert writer_kind(arg0) == 2 || reader_kind(arg1) == 2
+//@   before any call io.Copy assert writer_kind(arg0) != 1 || reader_kind(arg1) == 2
 //@   before call (io.ReadWriter).Read assert false
 //@   before call (io.Reader).Read assert false
 //@   before call io.ReadFull assert len(arg1) == 16
 
 //@ func (ffo *flattenedFileObject) ReadFrom(r io.Reader) (n int64, err error)
-//@   before call io.CopyN assert writer_kind(arg0) != 1 || reader_kind(arg1) == 2
-//@   before call io.Copy assert writer_kind(arg0) != 1 || reader_kind(arg1) == 2
+//@   before any call io.CopyN assert writer_kind(arg0) != 1 || reader_kind(arg1) == 2
+//@   before any call io.Copy assert writer_kind(arg0) != 1 || reader_kind(arg1) == 2
 //@   before call (io.Reader).Read assert false
 
 //@ func UploadFolderHandler(rwc io.ReadWriter, fullPath string, fileTransfer *FileTransfer, fileStore FileStore, rLogger *slog.Logger, preserveForks bool) (err error)
-//@   before call io.CopyN assert writer_kind(arg0) != 1 || reader_kind(arg1) == 2
-//@   before call io.Copy assert writer_kind(arg0) != 1 || reader_kind(arg1) == 2
+//@   before any call io.CopyN assert writer_kind(arg0) != 1 || reader_kind(arg1) == 2
+//@   before any call io.Copy assert writer_kind(arg0) != 1 || reader_kind(arg1) == 2
 //@   before call (io.ReadWriter).Read assert false
 //@   before call (io.Reader).Read assert false
 
 //@ func DownloadFolderHandler(rwc io.ReadWriter, fullPath string, fileTransfer *FileTransfer, fileStore FileStore, rLogger *slog.Logger, preserveForks bool) (err error)
-//@   before call io.CopyN assert writer_kind(arg0) != 1 || reader_kind(arg1) == 2
+//@   before any call io.CopyN assert writer_kind(arg0) != 1 || reader_kind(arg1) == 2
 //@   before call (io.ReadWriter).Read assert false
 //@   before call (io.Reader).Read assert false
 
 // C02 + C09: receiveFile copies exactly the declared data-fork size into the target or fails.
 
 //@ func receiveFile(r io.Reader, targetFile io.Writer, resForkFile io.Writer, infoFork io.Writer, counterWriter io.Writer) (err error)
-//@   before call io.CopyN assert writer_kind(arg0) != 1 || reader_kind(arg1) == 2
-//@   before call io.Copy assert writer_kind(arg0) != 1 || reader_kind(arg1) == 2
+//@   before any call io.CopyN assert writer_kind(arg0) != 1 || reader_kind(arg1) == 2
+//@   before any call io.Copy assert writer_kind(arg0) != 1 || reader_kind(arg1) == 2
 //@   before call (io.Reader).Read assert false
 //@   ensures err == nil ==> written(targetFile) == max(callres("(*hotline.flattenedFileObject).dataSize"), 0)
 
@@ -393,10 +393,10 @@ package hotline
 
 //@ func UploadHandler(rwc io.ReadWriter, fullPath string, fileTransfer *FileTransfer, fileStore FileStore, rLogger *slog.Logger, preserveForks bool) (err error)
 //@   before call os.OpenFile assert bitof(arg1, 10) == 1 && bitof(arg1, 9) == 0
-//@   before call (hotline.FileStore).OpenFile assert bitof(arg2, 10) == 1 && bitof(arg2, 9) == 0
+//@   before any call (hotline.FileStore).OpenFile assert bitof(arg2, 10) == 1 && bitof(arg2, 9) == 0
 //@   before call os.OpenFile assert callres("os.Stat", 1) != nil
 //@   before call (hotline.FileStore).Rename assert callres("hotline.receiveFile") == nil && callres("os.Stat", 1) != nil
-//@   before call os.Rename assert callres("hotline.receiveFile") == nil && callres("os.Stat", 1) != nil
+//@   before any call os.Rename assert callres("hotline.receiveFile") == nil && callres("os.Stat", 1) != nil
 //@   before call (io.ReadWriter).Read assert false
 
 // ---------------------------------------------------------------------------------
@@ -404,12 +404,12 @@ package hotline
 // of a copy must not bring its own WriteTo (io.Copy would bypass Read and write in pieces).
 
 //@ func (s *Server) sendTransaction(t Transaction) (err error)
-//@   before call io.Copy assert false
-//@   before call io.CopyN assert false
+//@   before any call io.Copy assert false
+//@   before any call io.CopyN assert false
 //@   ensures ghost(connwrites) <= 1
 
 //@ func sendBanMessage(rwc io.Writer, message string)
-//@   before call io.Copy assert !has_method(arg1, "WriteTo")
+//@   before any call io.Copy assert !has_method(arg1, "WriteTo")
 //@   requires len(message) <= 30000
 
 // ---------------------------------------------------------------------------------
@@ -421,7 +421,7 @@ package hotline
 //@   before call (*hotline.ClientConn).Authenticate assert callres("hotline.performHandshake") == nil
 //@   before call (*hotline.ClientConn).Authenticate assert !callres("(hotline.BanMgr).IsBanned", 0) || (callres("(hotline.BanMgr).IsBanned", 1) != nil && !callres("(time.Time).Before"))
 //@   before call (hotline.BanMgr).IsBanned assert callres("hotline.performHandshake") == nil
-//@   before call io.Copy assert !has_method(arg1, "WriteTo")
+//@   before any call io.Copy assert !has_method(arg1, "WriteTo")
 
 //@ func (s *Server) handleNewConnection(ctx context.Context, rwc io.ReadWriteCloser, remoteAddr string) (err error)
 //@   before call (*hotline.ClientConn).Authenticate assert arg1 == callres("(*hotline.Field).DecodeObfuscatedString") || (callres("(*hotline.Field).DecodeObfuscatedString") == "" && arg1 == "guest")
@@ -603,3 +603,51 @@ package hotline
 //@   requires cm != nil && cc != nil && !isnil(cm.chats)
 //@   ensures has(cm.chats, id) && get(cm.chats, id) != nil && has(get(cm.chats, id).ClientConn, cc.ID) && get(get(cm.chats, id).ClientConn, cc.ID) == cc
 //@   ensures forall(a, 0, 256, forall(b, 0, 256, (a != cc.ID[0] || b != cc.ID[1]) ==> !has(get(cm.chats, id).ClientConn, seq(a, b))))
+
+// ---------------------------------------------------------------------------------
+// C08: a granted download carries the flattened-file header (unless it is a preview), then the
+// data fork from the resume offset to its end, then the resource fork header (unless resuming)
+// and the resource fork.  Stated over stream ghost state (see plugin_streams.go): at each write
+// what has been written so far and where the source stands; at the exit, failure only when the
+// environment failed.
+
+//@ func DownloadHandler(w io.Writer, fullPath string, fileTransfer *FileTransfer, fs FileStore, rLogger *slog.Logger, preserveForks bool) (err error)
+//@   property C08
+//@   let off := ite(fileTransfer.FileResumeData != nil, u32(bytes(fileTransfer.FileResumeData.ForkInfoList[0].DataSize)), 0)
+//@   let nhdr := ite(isnil(fileTransfer.Options), 1, 0)
+//@   requires fileTransfer != nil && (fileTransfer.FileResumeData != nil ==> len(fileTransfer.FileResumeData.ForkInfoList) >= 1)
+//@   before call io.Copy#1 assert same(arg0, w) && isnil(fileTransfer.Options) && wcalls(w) == 0 && written(w) == 0
+//@   before call (*bufio.Reader).Discard assert spos(arg0) == 0
+//@   before call (*bufio.Reader).Discard assert arg1 == off
+//@   before call io.Copy#2 assert same(arg0, w)
+//@   before call io.Copy#2 assert wcalls(w) == nhdr
+//@   before call io.Copy#2 assert spos(arg1) == off
+//@   before call io.Copy#2 assert isnil(fileTransfer.Options) ==> written(w) == len(wire_FFO(callres("hotline.NewFileWrapper", 0).Ffo))
+//@   before call io.Copy#2 assert !isnil(fileTransfer.Options) ==> written(w) == 0
+//@   before call encoding/binary.Write assert same(arg0, w) && fileTransfer.FileResumeData == nil && wcalls(w) == nhdr + 1
+//@   before call encoding/binary.Write assert spos(callarg("io.Copy#2", 1)) == ssize(callarg("io.Copy#2", 1))
+//@   before call io.Copy#3 assert same(arg0, w) && wcalls(w) == nhdr + 1 + ite(fileTransfer.FileResumeData == nil, 1, 0)
+//@   before call io.Copy#3 assert spos(callarg("io.Copy#2", 1)) == ssize(callarg("io.Copy#2", 1)) && spos(arg1) == 0
+//@   ensures err == nil ==> wcalls(w) == old(nhdr) + 2 + ite(old(fileTransfer.FileResumeData) == nil, 1, 0)
+//@   ensures err != nil ==> ghost(envfail) != 0 || ghost(shortskip) != 0
+
+//@ func NewFileWrapper(fs FileStore, path string, dataOffset int64) (r *fileWrapper, err error)
+//@   property C08
+//@   ensures (err == nil) == (r != nil)
+//@   ensures err == nil ==> r.Ffo != nil && r.Ffo.readOffset == 0 && inv_FFO(r.Ffo) && r.dataOffset == dataOffset && fresh(r) && fresh(r.Ffo) && disjoint(r, r.Ffo)
+//@   modifies nothing
+
+// The announced sizes: data size = size on disk - resume offset (both Stat branches), transfer
+// size = header + data + resource - offset.
+
+//@ func (f *fileWrapper) flattenedFileObject() (r *flattenedFileObject, err error)
+//@   property C08
+//@   before call PutUint32#1 assert arg2 == (callres("(io/fs.FileInfo).Size#1") - f.dataOffset) % 4294967296
+//@   before call PutUint32#2 assert arg2 == (callres("(io/fs.FileInfo).Size#2") - f.dataOffset) % 4294967296
+
+//@ func (ffo *flattenedFileObject) TransferSize(offset int64) (r []byte)
+//@   property C08
+//@   requires ffo != nil && ffo.readOffset == 0 && inv_FFO(ffo)
+//@   ensures len(r) == 4 && u32(bytes(r)) == (u32(bytes(ffo.FlatFileDataForkHeader.DataSize)) + u32(bytes(ffo.FlatFileResForkHeader.DataSize)) + len(wire_FFO(ffo)) - offset) % 4294967296
+//@   ensures ffo.readOffset == 0 && wire_FFO(ffo) == old(wire_FFO(ffo))
+//@   nopanic
